@@ -861,7 +861,7 @@ package expr
 //@   property C02
 //@   opt inline none
 //@   opt loopframes none
-//@   requires a != nil && bodyMA == 0 && !sawObject && !sawUnion
+//   -- the ghost records start clear (stated as a hypothesis of the clause, not as a precondition callers must meet)
 //@   unknown_calls_preserve global(Empty)
 //@   callspec AsObject params dt
 //@       ensures result == ptr(*Object, asObjSpec(dt))
@@ -877,4 +877,4 @@ package expr
 //@       modifies bodyMA
 //@   let bm = ptr(*MappedAttributeExpr, bodyMA)
 //@   let left = ptr(*Object, asObjSpec(bm.AttributeExpr.Type))
-//@   ensures* no.body.only.when.nothing.is.left: old(a.Body) == nil && !sawUnion && sawObject && result != nil && typeIs(result.Type, *UserTypeExpr) && result.Type.val == Empty ==> bodyMA != 0 && len(load(left)) == 0
+//@   ensures* no.body.only.when.nothing.is.left: old(bodyMA) == 0 && !old(sawObject) && !old(sawUnion) && old(a.Body) == nil && !sawUnion && sawObject && result != nil && typeIs(result.Type, *UserTypeExpr) && result.Type.val == Empty ==> bodyMA != 0 && len(load(left)) == 0
